@@ -17,11 +17,11 @@
 EXTENDS Naturals, Sequences, FiniteSets, TLC
 
 Methods == {"GET", "POST", "HEAD"}
-MaxmemVals == {"absent", "1", "1048576", "2097151", "1950000", "67108864", "abc", "-5", "1.5"}
+MaxmemVals == {"absent", "1", "1048576", "2097151", "1950000", "67108864", "4294967296", "abc", "-5", "1.5"}
 AugmentVals == {"absent", "0", "1", "2", "-1", "x"}
 SimVals == {"absent", "exactflags", "exactlines", "anypointer", "anyvalue", "alike", "AnyPointer"}
 
-IntLike(v) == v \in {"1", "1048576", "2097151", "1950000", "67108864", "-5"}
+IntLike(v) == v \in {"1", "1048576", "2097151", "1950000", "67108864", "4294967296", "-5"}   \* (a limit, not an allocation: 2^32 is fine)
 Status(r) ==
   IF r.method # "GET" THEN 405
   ELSE IF r.maxmem # "absent" /\ ~IntLike(r.maxmem) THEN 400
